@@ -904,6 +904,18 @@ func (c *evalCtx) callExpr(n *ECall) EV {
 			a := c.eval(n.Args[0])
 			arr := e.heapArr(c.st, elemName(types.Typ[types.Uint8], 0), smt.Array(smt.Int, bytesInner))
 			return EV{V: Val{Typ: nil, Terms: []*smt.Term{e.canonWindow(cx.Select(arr, a.V.Terms[0]), a.V.Terms[1], a.V.Terms[2])}}}
+		case "lz4valid", "lz4origlen", "lz4orig":
+			// the assumed LZ4 block decoding functions, applied to the bytes of a slice
+			a := c.eval(n.Args[0])
+			arr := e.heapArr(c.st, elemName(types.Typ[types.Uint8], 0), smt.Array(smt.Int, bytesInner))
+			w := e.canonWindow(cx.Select(arr, a.V.Terms[0]), a.V.Terms[1], a.V.Terms[2])
+			switch id.Name {
+			case "lz4valid":
+				return boolEV(cx.App("lz4.valid", smt.Bool, w, a.V.Terms[2]))
+			case "lz4origlen":
+				return EV{V: Val{Typ: types.Typ[types.Int], Terms: []*smt.Term{cx.App("lz4.origlen", smt.BV(64), w, a.V.Terms[2])}}}
+			}
+			return EV{V: Val{Typ: nil, Terms: []*smt.Term{cx.App("lz4.orig", bytesInner, w, a.V.Terms[2])}}}
 		case "crc32of": // crc32of(state, bytestring, n): hash/crc32.Update's state function
 			st0 := c.eval(n.Args[0])
 			w := c.eval(n.Args[1])
